@@ -156,7 +156,7 @@ for ms, tier in [((2, 2), "q"), ((2, 4), "q"), ((3, 3), "q"), ((2, 2, 2), "q"), 
 for n in range(3, 9):
     r = cyc(n, list(range(n))); s = tuple((-i) % n for i in range(n)); s2 = tuple((1 - i) % n for i in range(n))
     add("D%d" % n, "q", 2 * n, 2, [pw([1], n), pw([2], 2), [2, 1, 2, 1]], [r, s])
-    add("I2_%d" % n, "q", 2 * n, 2, [pw([1], 2), pw([2], 2), pw([1, 2], n)], [s, s2] if porder(pmul(s, s2)) == n else None)
+    add("I2_%d" % n, "q", 2 * n, 2, [pw([1], 2), pw([2], 2), pw([1, 2], n)], [s, s2])
 add("D12", "t", 24, 2, [pw([1], 12), pw([2], 2), [2, 1, 2, 1]], [cyc(12, list(range(12))), tuple((-i) % 12 for i in range(12))])
 # --- groups from a multiplication model: right regular representation
 def regular(elems, mul, gens):
@@ -166,7 +166,6 @@ def qmul(a, b):
     a0, a1, a2, a3 = a; b0, b1, b2, b3 = b
     return (a0*b0 - a1*b1 - a2*b2 - a3*b3, a0*b1 + a1*b0 + a2*b3 - a3*b2, a0*b2 - a1*b3 + a2*b0 + a3*b1, a0*b3 + a1*b2 - a2*b1 + a3*b0)
 qi, qj = (0, 1, 0, 0), (0, 0, 1, 0)
-q8 = closure_elems = None
 def gen_closure(gens, mul, e):
     seen = [e]; s = {e}; k = 0
     while k < len(seen):
@@ -265,7 +264,6 @@ add("T232", "q", 6, 2, [pw([1], 2), pw([2], 3), pw([1, 2], 2)], find_pair(3, 2, 
 add("T233", "q", 12, 2, [pw([1], 2), pw([2], 3), pw([1, 2], 3)], find_pair(4, 2, 3, 3, 12))
 add("T234", "q", 24, 2, [pw([1], 2), pw([2], 3), pw([1, 2], 4)], find_pair(4, 2, 3, 4, 24))
 add("T235", "q", 60, 2, [pw([1], 2), pw([2], 3), pw([1, 2], 5)], find_pair(5, 2, 3, 5, 60))
-add("T245", "t", 120 * 0 + 0 or 1, 2, [[1]], [pid(1), pid(1)]) if False else None
 add("A4_332", "q", 12, 2, [pw([1], 3), pw([2], 3), pw([1, 2], 2)], find_pair(4, 3, 3, 2, 12))
 add("A5_253", "q", 60, 2, [pw([1], 2), pw([2], 5), pw([1, 2], 3)], find_pair(5, 2, 5, 3, 60))
 add("S5_254", "q", 120, 2, [pw([1], 2), pw([2], 5), pw([1, 2], 4), pw([1, 2, 1, -2], 3)],
